@@ -97,7 +97,7 @@ def generate_indexed(family, index, rng, tier):
             ws, exhaustive = words_for(k, rng, tier, 1 if tier == "quick" else 6)
             if tier == "quick" and not exhaustive:
                 # three basis words per slice in quick: zero, all-ones/one unit vector, one random
-                ws = [0, ws[1] if i % 2 == 0 else ws[2 + (i * 7) % k], ws[-1]]
+                ws = [0, ws[1] if i % 2 == 0 else ws[2 + (i * 7) % max(1, len(ws) - 3)], ws[-1]]
             return {"family": "sweep", "k": k, "words": ws, "slice": [a, b], "exhaustive_words": exhaustive}
         i -= len(sl)
     raise IndexError(index)
